@@ -807,7 +807,10 @@ func (hv *Hash) At(i int) px.Value {
 
 func (hv *Hash) Delete(key px.Value) px.List {
 	if idx, ok := hv.valueIndex()[px.ToKey(key)]; ok {
-		return WrapHash(append(hv.entries[:idx], hv.entries[idx+1:]...))
+		// copy: an append to hv.entries[:idx] would shift the entries of the receiver itself
+		entries := make([]*HashEntry, 0, len(hv.entries)-1)
+		entries = append(entries, hv.entries[:idx]...)
+		return WrapHash(append(entries, hv.entries[idx+1:]...))
 	}
 	return hv
 }
